@@ -245,6 +245,9 @@ def parse_ranges(intervals):
         except ValueError:
             raise ValueError(f'range bound {bounds[1]!r} is not an '
                              'integer') from None
+        if end < start:
+            raise ValueError(f'range {rang!r} is empty: the upper bound is '
+                             'smaller than the lower bound')
         bounds_list.append((start, end))
     return LatticeBounds(bounds_list)
 
